@@ -189,6 +189,9 @@ func c13judgeBucket(rec *mon.Recorder, cell string, goMap map[any]any, wireMap *
 	rec.Eval(2)
 	rec.Class(cell)
 	rec.Event("cells")
+	if n := rec.Events("cells"); n%1500 == 7 {
+		rec.Sample(fmt.Sprintf("cell-%d", n), map[string]any{"cell": cell, "go": fmt.Sprintf("%#v", goMap), "wire": hexs(wireBucket(wireMap, protected)), "encode_ok": e, "decode_ok": d, "rules_ok": want})
+	}
 	if want {
 		rec.Event("cells:conforming")
 	} else {
@@ -568,7 +571,6 @@ func runC13(c *Ctx) {
 	rec.Require("cells:conforming", 1000)
 	rec.Require("cells:violating", 1000)
 	rec.RequireClasses(5000)
-	rec.Sample("cell", map[string]any{"cell": "label=5/value=bstr/protected=true/spelling=int8", "go": "ProtectedHeader{int8(5): []byte{1,2}}", "wire": "45a105420102", "verdicts": "encode ok, decode ok, rules ok"})
 }
 
 type namedString string
